@@ -5,9 +5,11 @@ from harness import gen
 from harness.framework import Suite
 
 PID = "C09"
-READY = False
 LEAN_MODS = ["SwcVerif.Props.C09"]
-THEOREMS = []
+THEOREMS = [
+    "C09.mkTree_wf", "C09.step_wf", "C09.run_wf", "C09.at_spec", "C09.view_reads_owner", "C09.reads_pure", "C09.node_write_through",
+    "C09.write_then_view_read", "C09.copy_fresh", "C09.detach_fresh", "C09.write_frame", "C09.tree_segments", "C09.branch_segments",
+]
 TRUSTED = ["hand-written heap model Model/Views.lean (owners, arrays, views; where numpy aliases and where it copies), tied by the c09.history correspondence: "
            "every read of every operation history compared exactly, plus np.shares_memory observations in the oracle"]
 ASSUMPTIONS = ["numpy: integer indexing and basic slices are views, fancy indexing and np.array(...) copy; copy.deepcopy copies arrays",
